@@ -93,6 +93,22 @@ def prefix_program(rnd):
     return body
 
 
+def string_program(rnd):
+    """string literals whose CONTENT has white space a line-oriented clean-up would touch: raw strings with lines ending
+    in blanks or tabs, blank-only lines, leading indentation, a trailing blank before the closing quotes; ordinary strings
+    with blanks at either end and escapes - at top level, as arguments, behind comments"""
+    def raw():
+        lines = [rnd.choice(["line one", "  indented", "tab\tend\t", "ends in two  ", "", "   ", "\t", "x ; not a comment", "(paren", "'q"]) for _ in range(rnd.randrange(1, 5))]
+        return '"""' + "\n".join(lines) + rnd.choice(["", " ", "\n", "  \n"]) + '"""'
+    def plain():
+        return '"' + rnd.choice(["a  ", "  b", " ", "tab\\t ", "semi ; colon", "x\\n  y  ", "  "]) + '"'
+    parts = []
+    for _ in range(rnd.randrange(2, 6)):
+        lit = raw() if rnd.random() < 0.6 else plain()
+        parts.append(rnd.choice(["%s", "(set 'banner %s)", "(list 1 %s 2)", "; about to\n%s", "(f %s) ; trailing  ", "'(%s)", "(concat 'string %s\n   %s)" ]).replace("%s", lit))
+    return "\n".join(parts) + "\n"
+
+
 def run(tier):
     V = Verdict("C16", tier)
     work = Work("C16")
@@ -113,7 +129,7 @@ def _run(V, work, tier):
         model["".join(rec["s"])] = rec
     small = ["(", ")", "[", "]", "'", "a", "1", " ", ";", "\n", "#", "!", "-"]
     maxlen = 5 if thorough else 4
-    res = run_tlc(work, "Reader", c12.CFG % (maxlen, ", ".join(json.dumps(c) for c in small)), timeout=3300, line_sink=sink)
+    res = run_tlc(work, "Reader", c12.CFG % (maxlen, ", ".join(c12.tla_str(c) for c in small)), timeout=3300, line_sink=sink)
     V.tlc(res, "Reader: every string of length <= %d over %d classes (candidate inputs)" % (maxlen, len(small)))
     if res.violated:
         raise MachineryError("Reader invariant violated: %s" % res.violated)
@@ -122,7 +138,7 @@ def _run(V, work, tier):
     if not thorough:
         texts = rnd.sample(texts, min(len(texts), 2500))
     rejected = rnd.sample(rejected, min(len(rejected), 3000 if thorough else 600))
-    progs_ = [commented_program(rnd) for _ in range(1500 if thorough else 250)] + [prefix_program(rnd) for _ in range(2000 if thorough else 400)]
+    progs_ = [commented_program(rnd) for _ in range(1500 if thorough else 250)] + [prefix_program(rnd) for _ in range(2000 if thorough else 400)] + [string_program(rnd) for _ in range(600 if thorough else 150)]
     files = []
     for f in ktrace.repo_lisp_files():
         try:
